@@ -26,6 +26,10 @@ struct Case {
     /// the socket takes only this many bytes of the first Keep Alive frame and then nothing for 2 s,
     /// while discovery completes 1 s into that stall and selection takes another 30 s
     ka_write_stall: Option<usize>,
+    /// the socket takes only this many bytes of the *timeout Disconnect* frame and then nothing for
+    /// 2 s, while discovery completes 1 s into that stall and selection takes another 5 s: the
+    /// decision to end the connection must survive the completing backend call
+    disc_write_stall: Option<usize>,
     /// the Client Information frame arrives in two pieces: the first `cut` bytes, the rest after a pause
     ci_split: Option<(usize, Duration)>,
     /// a Plugin Message sent this long after Client Information (i.e. during routing) arrives in two
@@ -34,6 +38,8 @@ struct Case {
     /// which tolerated frame the extra is: 0 Plugin Message, 1 Client Information again,
     /// 2 Resource Pack Response, 3 Cookie Response
     extra_kind: u8,
+    /// the waiting client sends a tolerated frame this often (a chatty mod, a resource-pack dialogue)
+    chatty_every: Option<Duration>,
     seed: u64,
 }
 
@@ -77,7 +83,7 @@ fn generate(cli: &Cli) -> Vec<Case> {
                 for e in &echoes {
                     let mut lat = [Duration::ZERO; 3];
                     lat[slow_stage] = *l;
-                    out.push(Case { class: String::new(), pre_login: Duration::from_secs(pre), ci_delay: Duration::from_secs(ci), lat, echo: e.clone(), unsolicited: false, ka_write_stall: None, ci_split: None, extra_split: None, extra_kind: 0, seed: rng.u64() });
+                    out.push(Case { class: String::new(), pre_login: Duration::from_secs(pre), ci_delay: Duration::from_secs(ci), lat, echo: e.clone(), unsolicited: false, ka_write_stall: None, disc_write_stall: None, ci_split: None, extra_split: None, extra_kind: 0, chatty_every: None, seed: rng.u64() });
                 }
             }
         }
@@ -85,7 +91,13 @@ fn generate(cli: &Cli) -> Vec<Case> {
     // the first Keep Alive is half written when discovery completes (every cut of the frame)
     for k in 1..10usize {
         for e in [EchoKind::Prompt, EchoKind::DelayedPermille(500), EchoKind::Never, EchoKind::WrongId] {
-            out.push(Case { class: String::new(), pre_login: Duration::ZERO, ci_delay: Duration::ZERO, lat: [Duration::ZERO; 3], echo: e, unsolicited: false, ka_write_stall: Some(k), ci_split: None, extra_split: None, extra_kind: 0, seed: rng.u64() });
+            out.push(Case { class: String::new(), pre_login: Duration::ZERO, ci_delay: Duration::ZERO, lat: [Duration::ZERO; 3], echo: e, unsolicited: false, ka_write_stall: Some(k), disc_write_stall: None, ci_split: None, extra_split: None, extra_kind: 0, chatty_every: None, seed: rng.u64() });
+        }
+    }
+    // the timeout Disconnect is half written when discovery completes (cuts across the frame)
+    for k in [1usize, 2, 3, 5, 9, 15, 25] {
+        for e in [EchoKind::Never, EchoKind::WrongId] {
+            out.push(Case { class: String::new(), pre_login: Duration::ZERO, ci_delay: Duration::ZERO, lat: [Duration::ZERO; 3], echo: e, unsolicited: false, ka_write_stall: None, disc_write_stall: Some(k), ci_split: None, extra_split: None, extra_kind: 0, chatty_every: None, seed: rng.u64() });
         }
     }
     // random schedules with jitter
@@ -108,9 +120,11 @@ fn generate(cli: &Cli) -> Vec<Case> {
             echo: e,
             unsolicited: rng.chance(1, 8),
             ka_write_stall: None,
+            disc_write_stall: None,
             ci_split: if rng.chance(1, 6) { Some((1 + rng.usize_below(12), Duration::from_millis(rng.below(80_000)))) } else { None },
             extra_split: if rng.chance(1, 6) { Some((Duration::from_millis(rng.below(50_000)), rng.usize_below(12), Duration::from_millis(rng.below(80_000)))) } else { None },
             extra_kind: rng.below(4) as u8,
+            chatty_every: if rng.chance(1, 8) { Some(Duration::from_millis(500 + rng.below(15_000))) } else { None },
             seed: rng.u64(),
         });
     }
@@ -127,9 +141,11 @@ fn generate(cli: &Cli) -> Vec<Case> {
                     echo: e,
                     unsolicited: false,
                     ka_write_stall: None,
+                    disc_write_stall: None,
                     ci_split: Some((cut, Duration::from_secs(pause))),
                     extra_split: None,
                     extra_kind: 0,
+                    chatty_every: None,
                     seed: rng.u64(),
                 });
             }
@@ -147,12 +163,34 @@ fn generate(cli: &Cli) -> Vec<Case> {
                     echo: e,
                     unsolicited: false,
                     ka_write_stall: None,
+                    disc_write_stall: None,
                     ci_split: None,
                     extra_split: Some((Duration::from_secs(at), cut, Duration::from_secs(pause))),
                     extra_kind: 0,
+                    chatty_every: None,
                     seed: rng.u64(),
                 });
             }
+        }
+    }
+    // a client that keeps talking while it waits: Keep Alives are due all the same
+    for every_ms in [1_000u64, 5_000, 10_000, 15_900] {
+        for e in [EchoKind::Prompt, EchoKind::DelayedPermille(500), EchoKind::Never, EchoKind::StopAfter(2)] {
+            out.push(Case {
+                class: String::new(),
+                pre_login: Duration::ZERO,
+                ci_delay: Duration::ZERO,
+                lat: [Duration::from_secs(70), Duration::ZERO, Duration::from_secs(20)],
+                echo: e,
+                unsolicited: false,
+                ka_write_stall: None,
+                disc_write_stall: None,
+                ci_split: None,
+                extra_split: None,
+                extra_kind: 0,
+                chatty_every: Some(Duration::from_millis(every_ms)),
+                seed: rng.u64(),
+            });
         }
     }
     // every kind of frame a waiting client may send, whole, in the middle of routing
@@ -167,9 +205,11 @@ fn generate(cli: &Cli) -> Vec<Case> {
                     echo: e,
                     unsolicited: false,
                     ka_write_stall: None,
+                    disc_write_stall: None,
                     ci_split: None,
                     extra_split: Some((Duration::from_secs(at), 0, Duration::ZERO)),
                     extra_kind: kind,
+                    chatty_every: None,
                     seed: rng.u64(),
                 });
             }
@@ -186,6 +226,12 @@ fn generate(cli: &Cli) -> Vec<Case> {
         c.class = format!("ci-{}/pre-{}/disc-{}/filter-{}/strat-{}/{:?}{}", bucket(c.ci_delay), bucket(c.pre_login), bucket(c.lat[0]), bucket(c.lat[1]), bucket(c.lat[2]), c.echo, if c.unsolicited { "/unsolicited-echo" } else { "" });
         if let Some(k) = c.ka_write_stall {
             c.class = format!("keep-alive-half-written@{k}/{:?}", c.echo);
+        }
+        if let Some(k) = c.disc_write_stall {
+            c.class = format!("timeout-disconnect-half-written@{k}/{:?}", c.echo);
+        }
+        if let Some(every) = c.chatty_every {
+            c.class = format!("{}/chatty-every-{}", c.class, bucket(every));
         }
         if let Some((cut, pause)) = c.ci_split {
             c.class = format!("{}/client-information-split@{}-pause-{}", c.class, cut.min(3), bucket(pause));
@@ -217,6 +263,17 @@ fn scenario(c: &Case, echo: Echo, lat: [Duration; 3]) -> (Scenario, std::net::So
     plan.deadline = Duration::from_secs(900);
     if let Some((cut, pause)) = c.ci_split {
         plan.seg.label_splits.push(("ClientInformation".into(), vec![(cut, pause)]));
+    }
+    if let Some(every) = c.chatty_every {
+        if let Some(pos) = plan.script.iter().position(|a| matches!(a, Act::Send { label, .. } if label == "ClientInformation")) {
+            let n = (120_000 / every.as_millis().max(1)).min(200) as usize;
+            let mut acts = vec![];
+            for i in 0..n {
+                acts.push(Act::Sleep(every));
+                acts.push(send(&format!("Chatter#{i}"), Pkt::ConfPluginMessageIn { raw: b"\x0fminecraft:brandchatter".to_vec() }));
+            }
+            plan.script.splice(pos + 1..pos + 1, acts);
+        }
     }
     if let Some((at, cut, pause)) = c.extra_split {
         if let Some(pos) = plan.script.iter().position(|a| matches!(a, Act::Send { label, .. } if label == "ClientInformation")) {
@@ -307,6 +364,19 @@ fn run_case(c: &Case) -> Outcome {
         stall_plan = Some(vp_sim::simnet::WritePlan { steps: vec![], stalls: vec![(offset + k, Duration::from_secs(2))] });
         // what the transport holds back is not the server's delay
         stall_allowance = 2 * SEC;
+    }
+    if let Some(k) = c.disc_write_stall {
+        // discovery completes 1 s after the tick at which the Disconnect is due, selection takes 5 s more
+        let t_ci = cal.client.sent.iter().find(|s| s.label == "ClientInformation").map(|s| s.t_ns).unwrap_or(0);
+        lat = [Duration::from_nanos(cal_ka[1].saturating_sub(t_ci) + SEC), Duration::ZERO, Duration::from_secs(5)];
+        // where the Disconnect frame begins in the clientbound stream: read off a run without the stall
+        let (pre_sc, _) = scenario(c, echo.clone(), lat);
+        let pre = run(&pre_sc);
+        let offset: usize = pre.client.received.iter().take_while(|r| !matches!(r.pkt, Ok(Pkt::ConfDisconnect { .. }))).map(|r| r.frame_len).sum();
+        if pre.client.first("ConfDisconnect").is_some() {
+            stall_plan = Some(vp_sim::simnet::WritePlan { steps: vec![], stalls: vec![(offset + k, Duration::from_secs(2))] });
+            stall_allowance = 2 * SEC;
+        }
     }
     let (mut sc, chosen) = scenario(c, echo, lat);
     if let Some(p) = stall_plan {
